@@ -59,6 +59,9 @@ def _gen_exec(args):
     r = m.execute(copy.deepcopy(case))
     r.setdefault("violations", [])
     r["seed"] = seed
+    tc = getattr(boot.get_reactor(), "thread_completions", 0)
+    if tc:
+        r.setdefault("probes", {})["simulated-thread-pool-completions"] = tc
     if r["violations"] or (seed % 1000) < 3:
         r["case"] = case
     return r
